@@ -59,6 +59,10 @@ def generate(seed, tier, index):
         m = R.gen_matcher(rng, R.Vocab(L.build_stream(sc, rig.REPO), {0: 'A'}), p_const=0.0)
         sc['config']['break'] = R.render(m)
         sc['config']['break_model'] = m
+    if rng.random() < 0.12:
+        # the program's own terminal colours in its own output (passthrough lines): with colour disabled the tool passes them
+        # on and adds none of its own
+        sc['config']['esc_chatter'] = [[rng.randrange(1000), rng.randrange(1000)] for _ in range(rng.randint(1, 5))]
     sc['faults'] = F.gen_faults(rng, rng.choice([0, 1, 2, 3, 5]), ['drop', 'dup', 'swap', 'tear', 'garbage', 'id0', 'drop', 'tear'])
     return sc
 
@@ -101,7 +105,14 @@ def streams(rec, start=0):
     return [(k, p) for s, k, p in rec.events[start:] if k in ('out', 'err')]
 
 
-def compare(plain, colored, V, sig, what):
+ANY_ESC = re.compile('\x1b(?:\\[[0-9;]*[A-Za-z])?')
+
+
+def compare(plain, colored, V, sig, what, strip_plain=False):
+    if strip_plain:
+        # the input carries escape sequences of its own (program output passed through): both sides are compared without them;
+        # what the plain run may contain is judged separately (`escape-in-plain`)
+        plain = [(k, SGR.sub('', p)) for k, p in plain]
     if len(plain) != len(colored):
         V.add(sig, what, 'plain session wrote %d lines, coloured %d; first difference %r' % (len(plain), len(colored), first_diff(plain, colored)))
         return False
@@ -158,6 +169,15 @@ def execute(sc):
     V = common.Viol()
     st = L.build_stream(sc, rig.REPO)
     steps = faulty_steps(sc, st, V.counters)
+    esc_lines = []
+    for pos, k in sc['config'].get('esc_chatter') or []:
+        text = W.ESC_CHATTER[k % len(W.ESC_CHATTER)]
+        at = pos % (len(steps) + 1)
+        steps.insert(at, ('line', text))
+    esc_flavour = bool(sc['config'].get('esc_chatter'))
+    if esc_flavour:
+        esc_lines = [s[1] for s in steps if s[0] == 'line' and '\x1b' in s[1]]
+        V.bump('fault_program_output_with_own_colour_sequences', len(esc_lines))
     # which of the two sessions runs first is part of the scenario (anything remembered between sessions in one
     # process - a cached rendering, say - must not leak from one colour setting into the other)
     if sc['config'].get('colour_first'):
@@ -172,11 +192,18 @@ def execute(sc):
     colored = streams(rc.rec)
     if (rp.exception is None) != (rc.exception is None):
         V.add('C17/stripped-differs', 'exception', 'one session raised: plain %r coloured %r' % (rp.traceback, rc.traceback))
-    ok = compare(plain, colored, V, 'C17/stripped-differs', 'session')
-    for k, p in plain:
-        if '\x1b' in p:
-            V.add('C17/escape-in-plain', 'session', 'escape sequence in --no-color output: %r' % p)
-            break
+    ok = compare(plain, colored, V, 'C17/stripped-differs', 'session', strip_plain=esc_flavour)
+    if esc_flavour:
+        want = [] if sc['config'].get('suppress') else [m for l in esc_lines for m in ANY_ESC.findall(l)]
+        got = [m for k, p in plain for m in ANY_ESC.findall(p)]
+        if got != want:
+            V.add('C17/escape-in-plain', 'own-sequences', 'with colour disabled the output holds the escape sequences %r; the input '
+                  'lines passed through hold %r: the rest is the tool\'s own' % (got, want))
+    else:
+        for k, p in plain:
+            if '\x1b' in p:
+                V.add('C17/escape-in-plain', 'session', 'escape sequence in --no-color output: %r' % p)
+                break
     n_esc = sum(1 for k, p in colored if '\x1b' in p)
     rare = 0
     for k, p in plain:
@@ -200,7 +227,7 @@ def execute(sc):
             V.bump('probe_enum_labels_maybe')
     # paste-back
     pasted = 0
-    if ok and rp.exception is None and rc.exception is None:
+    if ok and rp.exception is None and rc.exception is None and not esc_flavour:
         rng = random.Random('%d/paste' % sc['seed'])
         for kind, frag in harvest(colored, rng, 12):
             plain_frag = SGR.sub('', frag)
